@@ -2092,7 +2092,14 @@ class Measurement:
             return NotImplemented
 
         measurand = self.measurand * other.measurand
-        uncertainty = self._join_uncertainties(measurand, other)
+        if self.measurand.magnitude == 0 or other.measurand.magnitude == 0:
+            # relative uncertainties are undefined for a measurand of zero, so combine
+            # the partial derivatives of the product directly
+            uncertainty = self._join_absolute_uncertainties(
+                other, other.measurand.magnitude, self.measurand.magnitude
+            )
+        else:
+            uncertainty = self._join_uncertainties(measurand, other)
         return Measurement(measurand, uncertainty)
 
     __rmul__ = __mul__
@@ -2105,8 +2112,25 @@ class Measurement:
             return NotImplemented
 
         measurand = self.measurand / other.measurand
-        uncertainty = self._join_uncertainties(measurand, other)
+        if self.measurand.magnitude == 0:
+            # relative uncertainties are undefined for a measurand of zero, so combine
+            # the partial derivatives of the quotient directly
+            uncertainty = self._join_absolute_uncertainties(
+                other, _div(1, other.measurand.magnitude), 0
+            )
+        else:
+            uncertainty = self._join_uncertainties(measurand, other)
         return Measurement(measurand, uncertainty)
+
+    def _join_absolute_uncertainties(
+        self, other: "Measurement", d_self: Numeric, d_other: Numeric
+    ) -> float:
+        return math.sqrt(
+            _add(
+                _pow(_mul(d_self, self.uncertainty.magnitude), 2),
+                _pow(_mul(d_other, other.uncertainty.magnitude), 2),
+            )
+        )
 
     def _join_uncertainties(self, measurand: Quantity, other: "Measurement") -> float:
         return math.sqrt(
